@@ -750,6 +750,10 @@ theorem setAttr_in_batch_getVal (c : Cfg) (f : Nat) (w : World) (p : Nat) (v : I
     · -- an Event parameter: q ≠ p by hypothesis
       have hne : q ≠ p := fun e => by have := (hq e).1; rw [he] at this; cases this
       simp only [he, if_true] at h ⊢
+      by_cases hv0 : c.valid p v = false
+      · simp [hv0]
+      have hv : c.valid p v = true := by simpa using hv0
+      simp only [hv, Bool.not_true, Bool.false_eq_true, if_false] at h ⊢
       generalize hd : run c f (.setPlain p v) w = d at h key ⊢
       obtain ⟨r1, w1, o1⟩ := d
       have hr : r1 ≠ .oof := by intro e; subst e; simp at h
@@ -856,7 +860,7 @@ theorem setAttr_in_batch_sets (c : Cfg) (f : Nat) (w : World) (k : Nat) (v : Int
   | succ f =>
     simp only [run] at h ⊢
     by_cases he : c.isEvent k
-    · simp only [he, if_true] at h ⊢
+    · simp only [he, if_true, hv, Bool.not_true, Bool.false_eq_true, if_false] at h ⊢
       have hp := setPlain_in_batch c f w k v hb
       generalize run c f (.setPlain k v) w = d at h hp ⊢
       obtain ⟨r1, w1, o1⟩ := d
